@@ -33,6 +33,17 @@ claim("C04",
       "same frames in order, deadline cleared iff at a frame boundary else exactly now+T8, idle gaps survive, in-frame gap > T8 or a length outside [10, cap] drops the link once without allocating.",
       "Trusted: executor + models, z3, the scripted net.Conn (deadline contract of net.Conn assumed). Outside: real kernel timing, >3 cuts, >2 frames.")
 
+claim("C08",
+      "Symbolic one-step induction over the HSMS-SS responder: the real dispatchFrame and control responders are run on ONE frame whose 10 header bytes (+0/1 body byte) are all symbolic, from every responder state, "
+      "and the frames sent back, delivery, disconnect and the resulting selected/open-transaction state are compared with an independent E37/E37.1 responder; because the post-state is asserted equal to the reference post-state the step covers frame sequences of any length. Sequences of 2 (thorough 3) frames are run as a redundant confirmation.",
+      "Trusted: executor + models, z3, the reference responder, the model runtime vrt. Outside: second-TCP-connection refusal (real listener), async sender ordering, session-id validation, T7/linktest goroutines.")
+
+claim("C19",
+      "Bounded symbolic model check of the linktest failure accounting: the two reducers on ALL inputs against a transcription of the documented rules, and the real runLinktest loop under virtual time over every history of 4 (thorough 6) rounds "
+      "of {silent, answered, traffic, reply outstanding, frame during wait, send during wait} x threshold 1..3 x suppression on/off: TCPDown exactly when the rules say (silent peer at exactly the threshold-th consecutive timeout, a peer showing life never), "
+      "no probe while traffic flowed within the interval or a reply is outstanding (suppression on), every round probed (off).",
+      "Trusted: executor + virtual-time model (natively: testing/synctest), z3, the rule transcription. Outside: wall-clock seconds, goroutine management of start/stopLinktest.")
+
 for _p, _r in {
     "C03": "check not yet registered in this session (work in progress, see DESIGN.md §3)",
     "C04": "check not yet registered in this session (work in progress, see DESIGN.md §3)",
